@@ -161,6 +161,15 @@ func Index(opts Options, bopts index.Options) error {
 		}
 	}
 
+	if builder == nil {
+		// The archive held no regular files, so add never created the builder.
+		// Index it like any other empty repository.
+		builder, err = index.NewBuilder(bopts)
+		if err != nil {
+			return err
+		}
+	}
+
 	return builder.Finish()
 }
 
